@@ -7,6 +7,7 @@
 //! here with the `aes-gcm` crate from RFC 6347/5288 (nonce, AAD) and passed as an oracle table.
 //! Property oracles are evaluated on the implementation directly (see `judge`).
 pub mod pair;
+pub mod hs;
 use crate::{Args, Rng, Run, hex, unhex};
 use bytes::Bytes;
 use pair::*;
